@@ -35,6 +35,24 @@ P = {
  "C18": ("call-log runtime monitor: closures passed to jacobian/jacobian_cmplx record every evaluation point; exactness on dyadic affine maps certified by an integer model; difference-quotient and derivative-bound oracles",
          "All 36 shapes (m,n) in [1,6]^2 x {f64,Cmplx} x all steps 2^-4..2^-26 and 1e-8: shape m x n, n+1 calls at x and x+delta*e_j with every other coordinate restored, J==M exactly for dyadic affine maps, entries equal the double-double difference quotient (512u) and lie within the rigorous truncation+rounding bound for smooth maps.",
          "Trusted: integer model of the logged calls on the 2^-29 grid; second-derivative bounds per term.", "5/C18"),
+ "C10": ("runtime monitor with hook-based classification: every roots() call on generated polynomials is judged by count, finiteness, normwise backward error evaluated in complex double-double and one-to-one matching for well-separated root sets; hook H5 reports whether a Laguerre iteration exhausted its cap",
+         "Degrees 1..12 x {f64,Cmplx} x {refine,no refine} x 10 hostile classes (roots at zero, vanishing inner coefficients, scale ratio 1e6, repeats, clusters, x^n+eps*x+c, ...): n finite values, backward error <= path threshold, matching of known roots; degree-0/empty rejected.",
+         "Thresholds fixed: 64u (deg 1-2, refined cubic), 1e-6 plain cubic, 1e-8 plain / 1e-12 refined for degree>=4 (measured worst 1e-12 / 1e-14 on 2.5 M inputs of the repaired tree).", "5/C10"),
+ "C12": ("runtime monitor with a logical step budget: polydiv on generated dividend/divisor pairs over Rat/CRat (exact identity), integer f64 (exact), general f64/Complex (double-double identity), remainder-degree check; hook H4 delivers the loop counter so that 'never spins' is decided on steps, not time",
+         "All 77 degree pairs (deg u 0..10, deg v 0..6): Ok, u=q*v+r exactly or within 64(deg u+1)u, r=0 or deg r<deg v, no panic, loop passes <= 4(deg u+2); empty/all-zero divisors (incl. -0.0) give Err.",
+         "Trusted: harness convolution model; hook H4 (liveness asserted each run).", "5/C12"),
+ "C13": ("differential runtime monitor: the real generic Complex<T> operator code at exact rationals vs independently coded field formulae; Complex<f64> vs exact TwoProd/double-double references; bit-identity of compound-assignment and mixed forms; ordering laws on pairs/triples",
+         "All 17 operator impls, conj, abs_sqr, zero, one, ==, partial_cmp: exact over Complex<Rat> (exhaustive small grids + random), <=4u (mul) / 12u (div) normwise over f64 in 1e-100..1e100, every assign form bit-identical to its binary form, trichotomy/transitivity/consistency of the ordering.",
+         "Tolerances are about twice the a-priori bounds of the straight-line IEEE formulae (theorems under the operand-range certificate).", "5/C13"),
+ "C14": ("runtime monitor against an independent double-double reference implementation of the definitions (exp/sin/cos/ln/atan2/sqrt and DLMF principal-value inverse formulae), plus real-axis reduction, right-inverse through the library's own forward functions, principal ranges, reciprocal/Pythagorean identities, pow/powf/log/polar relations",
+         "35 public Complex<f64> functions on a polar grid 1e-3<=|z|<=10 in all quadrants, both axes with signed zeros, points within 1e-9 of +-1,+-i,0 and 1e-12 either side of every cut: values within condition-aware envelopes of the DD reference, branches principal, inverses right-inverse.",
+         "Envelopes model the rounding of the library's current formulae with >=147x head-room; a wrong branch/sign/formula is O(1). Regressions below ~1e3 u are invisible by design.", "5/C14"),
+ "C17": ("runtime monitor with instrumented closures: call counting and evaluation-point logs inside the user functions; Kantorovich-certified planted-root families for the success half; arbitrary (root-free, discontinuous, NaN-producing) functions for termination, bounded work and failure reporting; metamorphic chain over the iteration limit (limit k vs k+1 against an independent one-step model)",
+         "All six entry points: certified cases return Ok within the certified count and within the stated distance of the planted root; any function: no panic, evaluations within 3k/(n+2)k/k, max_iter=0 gives Err(guess) bit-exactly, Ok/Err status matches an independent model of the stopping test at every limit, parameters() and repeated calls bit-identical.",
+         "Trusted: harness one-step Newton model and derivative bounds; closures that panic are out of scope.", "5/C17"),
+ "C19": ("lock-step history monitor against a Vec<Vec<i64>> grid model through every write and read path (Mesh1D/Mesh2D at f64 and Rat), exact rational reference for interpolation and quadrature on dyadic grids with integer data, file round trips re-read and compared over Rat",
+         "All 44 1-D and 484 2-D shapes (2..12 nodes, 1..4 vars) enumerated + random non-uniform dyadic grids: every access path returns what was stored after every write; interpolation exact at nodes and within 512u of the Rat interpolant elsewhere (>=1e-6 from nodes); trapezium/square_trapezium equal the exact cell sums (bit-exact under certificate) and the analytic integral of (bi)linear data; output/read reproduces nodes and variables within 1/2*10^-p.",
+         "Files are written under /verif/.work and deleted; behaviour inside the 1e-7 snapping window and outside the grid is not judged.", "5/C19"),
 }
 ORDER = ["C%02d" % i for i in range(1, 21)]
 NOT_BUILT_REASON = "monitor for this property is designed (DESIGN.md section 5) but not yet built in this revision; not claimed"
